@@ -6,7 +6,7 @@
    restricted to the retained terms; and the result passes the executable statements of C01, C02
    and C03 again.  The theorems say what its reference functions mean. *)
 From Coq Require Import Relations.
-From HpoV Require Import Model.Base Run.World Run.C01 Run.C11 Run.C14 Proofs.C01P Proofs.C14P.
+From HpoV Require Import Gen.Consts Model.Base Model.Group Model.Onto Model.Query Model.SubOnt Run.World Run.C01 Run.C11 Run.C14 Proofs.C01P Proofs.C14P Proofs.ClosureP Proofs.DistP Proofs.SubP.
 
 Theorem C14_retained_on_shortest_chain : forall ts n l t root dl,
   sd n ts l root = Some dl ->
@@ -23,5 +23,33 @@ Theorem C14_result_closure_exact : forall sts, closure_ok sts = true -> forall t
   forall a, In a (p_allp t) <-> clos_trans N (prel sts) (p_id t) a.
 Proof. exact closure_ok_sound. Qed.
 
+(* ---- about the Gallina transcription of Ontology::sub_ontology (Model/SubOnt.v) ---- *)
+
+(* the retained ids are exactly: every leaf, and the path path_to_ancestor chose from it to the root *)
+Theorem C14_model_retained_set : forall o root leaves acc ids, foldM (leaf_step o root) leaves acc = Ok ids ->
+  forall x, In x ids <->
+    In x acc \/ exists l lt path, In l leaves /\ ar_get_unchecked l (o_arena o) = Ok lt /\
+                                  path_anc (q_fuel o) o lt root = Ok (Some path) /\ (x = t_id lt \/ In x path).
+Proof. exact sub_ids_spec. Qed.
+
+(* every retained term lies on a SHORTEST chain of parent links from some leaf to the root
+   (ontologies with exact ancestor caches; leaves are terms of the ontology) *)
+Theorem C14_model_retained_on_shortest_chain : forall o (G : qgood o) root leaves ids x,
+  (forall l, In l leaves -> In l (ar_keys (o_arena o))) ->
+  sub_ids o root leaves = Ok ids -> In x ids ->
+  exists l path, In l leaves /\
+    links o l path /\ last path l = t_id root /\ (x = l \/ In x path) /\
+    forall n, chain (o_arena o) l n (t_id root) -> (length path <= n)%nat.
+Proof. exact retained_on_shortest_chain. Qed.
+
+(* the call is refused with NotImplemented exactly because some leaf has no path to the root *)
+Theorem C14_model_refusal : forall o root leaves acc e, foldM (leaf_step o root) leaves acc = Err e ->
+  e = NotImplemented /\ exists l lt, In l leaves /\ ar_get_unchecked l (o_arena o) = Ok lt /\
+                                     path_anc (q_fuel o) o lt root = Ok None.
+Proof. exact sub_ids_refuses. Qed.
+
 Print Assumptions C14_retained_on_shortest_chain.
 Print Assumptions C14_result_closure_exact.
+Print Assumptions C14_model_retained_set.
+Print Assumptions C14_model_retained_on_shortest_chain.
+Print Assumptions C14_model_refusal.
